@@ -48,13 +48,22 @@ type Op struct {
 	kind    opKind
 	desc    string
 	site    string
-	enabled func() bool
-	apply   func()
+	obj     OpObj       // shim object deciding enabledness / applying the effect (no closures: closures cannot be //go:norace)
+	fn      func() bool // harness-supplied enabledness (harness code synchronises its own state)
+	applyFn func()
+	joinOn  []*thread
+	timer   *vtimer
 	// select
 	cases      []SelCase
 	hasDefault bool
 	selected   int
 	resolved   bool // completed by a rendezvous partner; only needs to be scheduled
+}
+
+// OpObj is implemented by shim objects (mutexes, wait groups, ...).
+type OpObj interface {
+	OpEnabled(kind int) bool
+	OpApply(kind int)
 }
 
 type thread struct {
@@ -78,6 +87,7 @@ const (
 	Diverged         // replayed prefix did not fit (harness error)
 )
 
+//go:norace
 func (s Status) String() string {
 	return [...]string{"completed", "deadlock", "crash", "horizon", "diverged"}[s]
 }
@@ -142,11 +152,15 @@ var cur *sched
 type abortSentinel struct{}
 
 // Active reports whether a controlled execution is in progress.
+//
+//go:norace
 func Active() bool { return cur != nil }
 
 var epoch = time.Date(2030, 1, 1, 0, 0, 0, 0, time.UTC)
 
 // Exec runs body as the main thread of a fresh controlled execution.
+//
+//go:norace
 func Exec(cfg Config, body func()) *Execution {
 	if cur != nil {
 		panic("vsched: nested Exec")
@@ -157,7 +171,7 @@ func Exec(cfg Config, body func()) *Execution {
 	s := &sched{cfg: cfg, ctl: make(chan struct{}), exec: &Execution{}, now: epoch, start: epoch,
 		chans: map[uintptr]*chanState{}, keyIDs: map[any]int{}}
 	cur = s
-	defer func() { cur = nil }()
+	defer clearCur()
 	s.spawn("main", body)
 	s.loop()
 	s.teardown()
@@ -165,35 +179,54 @@ func Exec(cfg Config, body func()) *Execution {
 	return s.exec
 }
 
+//go:norace
+func clearCur() { cur = nil }
+
+//go:norace
 func (s *sched) spawn(name string, f func()) *thread {
 	t := &thread{id: len(s.threads), name: name, wake: make(chan struct{})}
-	t.pending = &Op{kind: opStart, desc: "start", enabled: func() bool { return true }}
+	t.pending = &Op{kind: opStart, desc: "start"}
 	s.threads = append(s.threads, t)
-	go func() {
-		<-t.wake
-		defer func() {
-			if e := recover(); e != nil {
-				if _, ok := e.(abortSentinel); !ok && !s.aborting {
-					t.crashed = true
-					buf := make([]byte, 8192)
-					buf = buf[:runtime.Stack(buf, false)]
-					s.exec.Crash = fmt.Sprintf("panic in thread %d (%s): %v\n%s", t.id, t.name, e, buf)
-				}
-			}
-			t.done = true
-			t.pending = nil
-			s.ctl <- struct{}{}
-		}()
-		if s.aborting {
-			return
-		}
-		f()
-		t.finished = true
-	}()
+	go s.threadMain(t, f)
 	return t
 }
 
+//go:norace
+func (s *sched) threadMain(t *thread, f func()) {
+	raceDisable()
+	<-t.wake
+	raceEnable()
+	defer s.threadExit(t)
+	if s.aborting {
+		return
+	}
+	f()
+	t.finished = true
+}
+
+// threadExit is the deferred epilogue of every managed goroutine.
+//
+//go:norace
+func (s *sched) threadExit(t *thread) {
+	if e := recover(); e != nil {
+		if _, ok := e.(abortSentinel); !ok && !s.aborting {
+			t.crashed = true
+			buf := make([]byte, 8192)
+			buf = buf[:runtime.Stack(buf, false)]
+			s.exec.Crash = fmt.Sprintf("panic in thread %d (%s): %v\n%s", t.id, t.name, e, buf)
+		}
+	}
+	raceReleaseExit(t)
+	t.done = true
+	t.pending = nil
+	raceDisable()
+	s.ctl <- struct{}{}
+	raceEnable()
+}
+
 // do parks the calling (current) thread at op and returns once it was granted.
+//
+//go:norace
 func (s *sched) do(op *Op) {
 	if s.aborting {
 		panic(abortSentinel{})
@@ -203,13 +236,16 @@ func (s *sched) do(op *Op) {
 		op.site = callSite()
 	}
 	t.pending = op
+	raceDisable()
 	s.ctl <- struct{}{}
 	<-t.wake
+	raceEnable()
 	if s.aborting {
 		panic(abortSentinel{})
 	}
 }
 
+//go:norace
 func callSite() string {
 	pcs := make([]uintptr, 12)
 	n := runtime.Callers(3, pcs)
@@ -242,34 +278,76 @@ type option struct {
 	cost int
 }
 
+//go:norace
+func (s *sched) opEnabled(op *Op) bool {
+	switch op.kind {
+	case opSend, opRecv:
+		return op.cases[0].ready()
+	case opJoin:
+		for _, t := range op.joinOn {
+			if !t.done {
+				return false
+			}
+		}
+		return true
+	case opSleep:
+		return op.timer.fired
+	}
+	if op.obj != nil {
+		return op.obj.OpEnabled(int(op.kind))
+	}
+	if op.fn != nil {
+		return op.fn()
+	}
+	return true
+}
+
+//go:norace
+func (s *sched) opApply(op *Op) {
+	switch op.kind {
+	case opSend, opRecv:
+		op.cases[0].fire()
+		return
+	}
+	if op.obj != nil {
+		op.obj.OpApply(int(op.kind))
+	}
+	if op.applyFn != nil {
+		op.applyFn()
+	}
+}
+
+//go:norace
+func (s *sched) addOptions(opts []option, t *thread) []option {
+	op := t.pending
+	if op == nil || t.done {
+		return opts
+	}
+	if op.resolved {
+		return append(opts, option{t: t, sel: -3})
+	}
+	if op.kind == opSelect {
+		n := 0
+		for i := range op.cases {
+			if op.cases[i].ready() {
+				opts = append(opts, option{t: t, sel: i})
+				n++
+			}
+		}
+		if n == 0 && op.hasDefault {
+			opts = append(opts, option{t: t, sel: -1})
+		}
+		return opts
+	}
+	if s.opEnabled(op) {
+		opts = append(opts, option{t: t, sel: -2})
+	}
+	return opts
+}
+
+//go:norace
 func (s *sched) options() []option {
 	var opts []option
-	add := func(t *thread) {
-		op := t.pending
-		if op == nil || t.done {
-			return
-		}
-		if op.resolved {
-			opts = append(opts, option{t: t, sel: -3})
-			return
-		}
-		if op.kind == opSelect {
-			n := 0
-			for i := range op.cases {
-				if op.cases[i].ready() {
-					opts = append(opts, option{t: t, sel: i})
-					n++
-				}
-			}
-			if n == 0 && op.hasDefault {
-				opts = append(opts, option{t: t, sel: -1})
-			}
-			return
-		}
-		if op.enabled() {
-			opts = append(opts, option{t: t, sel: -2})
-		}
-	}
 	// settle/join ops are evaluated last: they depend on the others being disabled
 	var late []*thread
 	first := s.last
@@ -277,7 +355,7 @@ func (s *sched) options() []option {
 		first = nil
 	}
 	if first != nil {
-		add(first)
+		opts = s.addOptions(opts, first)
 	}
 	lastEnabled := len(opts) > 0
 	for _, t := range s.threads {
@@ -288,7 +366,7 @@ func (s *sched) options() []option {
 			late = append(late, t)
 			continue
 		}
-		add(t)
+		opts = s.addOptions(opts, t)
 	}
 	if s.cfg.AutoTimers {
 		if _, ok := s.nextAwaitedTimer(); ok {
@@ -326,6 +404,7 @@ func (s *sched) options() []option {
 	return opts
 }
 
+//go:norace
 func (s *sched) fingerprint(opts []option) string {
 	var b strings.Builder
 	for _, o := range opts {
@@ -338,6 +417,7 @@ func (s *sched) fingerprint(opts []option) string {
 	return b.String()
 }
 
+//go:norace
 func (s *sched) loop() {
 	main := s.threads[0]
 	for {
@@ -406,8 +486,8 @@ func (s *sched) loop() {
 			if o.sel >= 0 {
 				op.cases[o.sel].fire()
 			}
-		} else if op.apply != nil {
-			op.apply()
+		} else {
+			s.opApply(op)
 		}
 		if s.cfg.Trace {
 			d := op.desc
@@ -418,29 +498,32 @@ func (s *sched) loop() {
 		}
 		t.pending = nil
 		s.cur, s.last = t, t
+		raceDisable()
 		t.wake <- struct{}{}
 		<-s.ctl
+		raceEnable()
 		s.cur = nil
 	}
 }
 
+//go:norace
 func (s *sched) describe() string {
 	var b strings.Builder
-	fns := map[string]bool{}
-	defer func() {
-		s.exec.BlockedIn = nil
-		for f := range fns {
-			s.exec.BlockedIn = append(s.exec.BlockedIn, f)
-		}
-		sort.Strings(s.exec.BlockedIn)
-	}()
+	var fns []string
 	for _, t := range s.threads {
 		if t.done {
 			continue
 		}
 		if t.pending != nil && t.id != 0 {
 			if i := strings.Index(t.pending.site, " "); i >= 0 {
-				fns[opNames[t.pending.kind]+"@"+t.pending.site[i+1:]] = true
+				f := opNames[t.pending.kind] + "@" + t.pending.site[i+1:]
+				dup := false
+				for _, x := range fns {
+					dup = dup || x == f
+				}
+				if !dup {
+					fns = append(fns, f)
+				}
 			}
 		}
 		d := "running"
@@ -452,10 +535,14 @@ func (s *sched) describe() string {
 		}
 		fmt.Fprintf(&b, "T%d(%s): %s; ", t.id, t.name, d)
 	}
+	sort.Strings(fns)
+	s.exec.BlockedIn = fns
 	return b.String()
 }
 
 // teardown makes every leftover goroutine unwind and exit.
+//
+//go:norace
 func (s *sched) teardown() {
 	s.aborting = true
 	for _, t := range s.threads {
@@ -463,8 +550,10 @@ func (s *sched) teardown() {
 			continue
 		}
 		s.cur = t
+		raceDisable()
 		t.wake <- struct{}{}
 		<-s.ctl
+		raceEnable()
 	}
 	s.cur = nil
 }
@@ -472,6 +561,7 @@ func (s *sched) teardown() {
 // ---------------------------------------------------------------------------
 // API for shims and harnesses
 
+//go:norace
 func must() *sched {
 	if cur == nil {
 		panic("vsched: blocking operation outside a controlled execution")
@@ -481,6 +571,29 @@ func must() *sched {
 
 // Do parks the current thread at a visible operation. Outside a controlled
 // execution the operation is applied at once (it must be enabled).
+//
+//go:norace
+func DoObj(kind int, desc string, obj OpObj) {
+	if cur == nil {
+		if obj != nil {
+			if !obj.OpEnabled(kind) {
+				panic("vsched: operation would block outside a controlled execution: " + desc)
+			}
+			obj.OpApply(kind)
+		}
+		return
+	}
+	if cur.aborting {
+		panic(abortSentinel{})
+	}
+	cur.do(&Op{kind: opKind(kind), desc: desc, obj: obj})
+}
+
+// Do is the closure flavour for harness code (fake connections etc.): enabled is evaluated by the controller and
+// apply runs when the operation is granted; whatever they touch must be synchronised by the harness itself when the
+// race detector is on.
+//
+//go:norace
 func Do(kind int, desc string, enabled func() bool, apply func()) {
 	if cur == nil {
 		if !enabled() {
@@ -494,7 +607,24 @@ func Do(kind int, desc string, enabled func() bool, apply func()) {
 	if cur.aborting {
 		panic(abortSentinel{})
 	}
-	cur.do(&Op{kind: opKind(kind), desc: desc, enabled: enabled, apply: apply})
+	cur.do(&Op{kind: opKind(kind), desc: desc, fn: enabled, applyFn: apply})
+}
+
+// DoFn is Do for harness code: enabled is evaluated by the controller, so whatever it reads must be synchronised
+// by the harness itself (e.g. a real mutex inside the fake connection) when the race detector is on.
+//
+//go:norace
+func DoFn(kind int, desc string, enabled func() bool) {
+	if cur == nil {
+		if !enabled() {
+			panic("vsched: operation would block outside a controlled execution: " + desc)
+		}
+		return
+	}
+	if cur.aborting {
+		panic(abortSentinel{})
+	}
+	cur.do(&Op{kind: opKind(kind), desc: desc, fn: enabled})
 }
 
 // Operation kinds usable by shims.
@@ -510,28 +640,38 @@ const (
 
 // Aborting is true while leftover goroutines are being unwound; shim release
 // operations (Unlock, Done) must then be silent no-ops.
+//
+//go:norace
 func Aborting() bool { return cur != nil && cur.aborting }
 
 // Yield is an explicit scheduling point.
+//
+//go:norace
 func Yield() {
 	if cur == nil {
 		return
 	}
-	cur.do(&Op{kind: opYield, desc: "yield", enabled: func() bool { return true }})
+	cur.do(&Op{kind: opYield, desc: "yield"})
 }
 
 // Handle identifies a spawned thread.
 type Handle struct{ t *thread }
 
 // Done tells whether the thread's function has returned.
+//
+//go:norace
 func (h Handle) Done() bool { return h.t.finished }
 
 // Go starts f as a managed thread. Outside a controlled execution it is a plain goroutine.
+//
+//go:norace
 func Go(f func()) Handle {
 	return GoNamed("go", f)
 }
 
 // GoNamed is Go with a thread name for diagnostics.
+//
+//go:norace
 func GoNamed(name string, f func()) Handle {
 	if cur == nil {
 		go f()
@@ -547,29 +687,35 @@ func GoNamed(name string, f func()) Handle {
 
 // Settle blocks the calling thread until no other thread can make progress
 // (timers excluded).
+//
+//go:norace
 func Settle() {
 	s := must()
-	s.do(&Op{kind: opSettle, desc: "settle", enabled: func() bool { return true }})
+	s.do(&Op{kind: opSettle, desc: "settle"})
 }
 
 // Join blocks until all given threads have finished. If they cannot finish it
 // blocks forever (a deadlock the controller will report).
+//
+//go:norace
 func Join(hs ...Handle) {
 	s := must()
-	s.do(&Op{kind: opJoin, desc: "join", enabled: func() bool {
-		for _, h := range hs {
-			if !h.t.done {
-				return false
-			}
-		}
-		return true
-	}})
+	op := &Op{kind: opJoin, desc: "join"}
+	for _, h := range hs {
+		op.joinOn = append(op.joinOn, h.t)
+	}
+	s.do(op)
+	for _, h := range hs {
+		raceAcquireExit(h.t)
+	}
 }
 
 // SetExploring switches the recording of choice points on or off. A harness
 // turns it off while it builds its fixture (the default option is taken at
 // every point, which is deterministic) and on for the scenario proper, so that
 // the schedule space explored is that of the scenario only.
+//
+//go:norace
 func SetExploring(on bool) {
 	if cur != nil {
 		cur.quiet = !on
@@ -577,6 +723,8 @@ func SetExploring(on bool) {
 }
 
 // Describe lists what every unfinished thread is blocked at.
+//
+//go:norace
 func Describe() string {
 	if cur == nil {
 		return ""
@@ -585,6 +733,8 @@ func Describe() string {
 }
 
 // Logf appends to the execution log when tracing.
+//
+//go:norace
 func Logf(format string, a ...any) {
 	if cur != nil && cur.cfg.Trace {
 		cur.exec.Log = append(cur.exec.Log, fmt.Sprintf(format, a...))
@@ -595,6 +745,8 @@ func Logf(format string, a ...any) {
 // deterministic identity for map keys
 
 // KeyID gives k a deterministic small integer (first-touch order within the execution).
+//
+//go:norace
 func KeyID(k any) int {
 	if cur == nil {
 		return 0
@@ -610,6 +762,8 @@ func KeyID(k any) int {
 // SortedKeys returns the keys of m in a canonical order: natural order for
 // ints/strings, first-touch order (KeyID) for everything else. The result is a
 // legal Go map iteration order.
+//
+//go:norace
 func SortedKeys[K comparable, V any](m map[K]V) []K {
 	keys := make([]K, 0, len(m))
 	for k := range m {
@@ -620,30 +774,41 @@ func SortedKeys[K comparable, V any](m map[K]V) []K {
 	}
 	switch any(keys[0]).(type) {
 	case string, int, int8, int16, int32, int64, uint, uint8, uint16, uint32, uint64:
-		sort.Slice(keys, func(i, j int) bool { return lessBasic(any(keys[i]), any(keys[j])) })
-		return keys
-	}
-	// not yet touched keys first get ids in a value-derived order (best effort)
-	var untouched []K
-	if cur != nil {
-		for _, k := range keys {
-			if _, ok := cur.keyIDs[k]; !ok {
-				untouched = append(untouched, k)
+		for i := 1; i < len(keys); i++ {
+			for j := i; j > 0 && lessBasic(any(keys[j]), any(keys[j-1])); j-- {
+				keys[j], keys[j-1] = keys[j-1], keys[j]
 			}
 		}
-		if len(untouched) > 1 {
-			sort.Slice(untouched, func(i, j int) bool { return fmt.Sprintf("%v", untouched[i]) < fmt.Sprintf("%v", untouched[j]) })
-		}
-		for _, k := range untouched {
-			KeyID(k)
-		}
-		sort.Slice(keys, func(i, j int) bool { return cur.keyIDs[keys[i]] < cur.keyIDs[keys[j]] })
 		return keys
 	}
-	sort.Slice(keys, func(i, j int) bool { return fmt.Sprintf("%v", keys[i]) < fmt.Sprintf("%v", keys[j]) })
+	// keys without identity yet get ids in a value-derived order (best effort), then first-touch order decides
+	strs := make([]string, len(keys))
+	for i := range keys {
+		strs[i] = fmt.Sprintf("%v", keys[i])
+	}
+	for i := 1; i < len(keys); i++ {
+		for j := i; j > 0 && strs[j] < strs[j-1]; j-- {
+			keys[j], keys[j-1] = keys[j-1], keys[j]
+			strs[j], strs[j-1] = strs[j-1], strs[j]
+		}
+	}
+	if cur == nil {
+		return keys
+	}
+	ids := make([]int, len(keys))
+	for i := range keys {
+		ids[i] = KeyID(keys[i])
+	}
+	for i := 1; i < len(keys); i++ {
+		for j := i; j > 0 && ids[j] < ids[j-1]; j-- {
+			keys[j], keys[j-1] = keys[j-1], keys[j]
+			ids[j], ids[j-1] = ids[j-1], ids[j]
+		}
+	}
 	return keys
 }
 
+//go:norace
 func lessBasic(a, b any) bool {
 	switch x := a.(type) {
 	case string:
@@ -673,6 +838,8 @@ func lessBasic(a, b any) bool {
 }
 
 // Touch gives a map key its identity at insertion time.
+//
+//go:norace
 func Touch[K comparable](k K) K {
 	switch any(k).(type) {
 	case string, int, int8, int16, int32, int64, uint, uint8, uint16, uint32, uint64:
